@@ -72,7 +72,7 @@ def coverage_check(out, impl, preds):
 def run(ctx):
     osy = ctx.osyris
     out_ = Outcome()
-    n = 40 if ctx.tier == "quick" else 1000
+    n = 40 if ctx.tier == "quick" else 600
     r = ctx.rng
     dist = {}
     for i in range(n):
